@@ -12,7 +12,7 @@ INFO = {
                    "division reachable from recovery has its divisor proven non-zero by a dominating test (R03-2, contradiction rule: "
                    "Operation::eval_fr tests is_zero before a / b). (ii) share/nullifier formulas (shared with C04): nullifier = H[H[s,e,m]] "
                    "is independent of x and depends on s, e, m. (iii) compute_id_secret is y1 - x1*((y1-y2)/(x1-x2)) on its unique success path, "
-                   "i.e. the inverse of the share line, for all field values. R03-4 (shared with C11): the C entry point recover_id_secret publishes exactly the bytes the method produced on the Ok arm, also when they are empty (no secret). R03-5 (shared with C01 R01-3): the four field elements, the position and the signal of a proving request reach the witness whole, so share and nullifier are those of the requested (s, e, m).",
+                   "i.e. the inverse of the share line, for all field values. R03-4 (shared with C11): the C entry point recover_id_secret publishes exactly the bytes the method produced on the Ok arm, also when they are empty (no secret). R03-5 (shared with C01 R01-3): the four field elements, the position and the signal of a proving request reach the witness whole, so share and nullifier are those of the requested (s, e, m). R03-6 (shared, C09 R09-4): the hash of the formulas has the Poseidon permutation shape (dense linear layer, no data-dependent skip), without which nullifiers stop depending on every input.",
     "not_decided": "that different (e, m) give different nullifiers (collision resistance of Poseidon)",
     "assumptions": ["arkworks Fp operators are field operations; Fp division panics on a zero divisor (ark-ff 0.5 Div impl unwraps inverse())"],
 }
